@@ -14,6 +14,10 @@ Pool == { L("opt", "Listen", FALSE, "Listen", <<A("53", "int")>>),
           L("opt", "Flag", FALSE, "Flag", <<A("0", "int0")>>),
           L("opt", "Mix", FALSE, "Mix", <<A("no", "bool0"), A("7", "int"), A("1.5", "float")>>),
           L("opt", "Pair", FALSE, "Pair", <<A("a b", "str")>>),
+          L("opt", "Five", FALSE, "Five", <<A("7", "int"), A("x", "str"), A("2", "int"), A("-3", "int"), A("On", "bool1")>>),
+          L("opt", "Five", FALSE, "Five", <<A("7", "int"), A("x", "str"), A("2.5", "float"), A("3", "int"), A("maybe", "str")>>),
+          L("opt", "Many", FALSE, "Many", <<A("no", "bool0"), A("1", "int1"), A("TRUE", "bool1"), A("off", "bool0"), A("Yes", "bool1"), A("maybe", "str"), A("On", "bool1")>>),
+          L("opt", "Many", FALSE, "Many", <<A("no", "bool0"), A("1", "int1"), A("TRUE", "bool1"), A("off", "bool0"), A("7", "int")>>),
           L("opt", "TTL", FALSE, "TTL", <<A("1", "int1")>>),
           L("opt", "Bogus", FALSE, "Bogus", <<A("v", "str")>>),
           L("open", "Domain", FALSE, "Domain", <<A("mail", "str")>>),
